@@ -72,6 +72,12 @@ type interpreter struct {
 	errorStringT types.Type
 	callDepth    int
 	pendingPanic interface{}
+	model        map[string]uint64
+	modelOK      bool
+	pcSet        map[*Term]bool
+	noExtOnce    *ssa.Function
+	fixedClock    value
+	hasFixedClock bool
 	elemOwners   map[*value][]value
 	uniques      map[string]*value
 }
@@ -443,6 +449,11 @@ func prepareCall(fr *frame, call *ssa.CallCommon) (fn value, args []value) {
 	} else {
 		recv := v.(iface)
 		if recv.t == nil {
+			if p := call.Method.Pkg(); p != nil && fr.i.eng.noop(p.Path()) {
+				// metrics/logging interface left nil by a skipped package init
+				sig := call.Method.Type().(*types.Signature)
+				return &nativeFn{name: "noop", f: func(i *interpreter, args []value) value { return zeroResult(sig) }}, nil
+			}
 			panic(targetPanic{fr.i.runtimeError("invalid memory address or nil pointer dereference (method on nil interface)")})
 		}
 		if f := lookupMethod(fr.i, recv.t, call.Method); f == nil {
@@ -509,7 +520,9 @@ func callSSA(i *interpreter, caller *frame, callpos token.Pos, fn *ssa.Function,
 	}
 	if fn.Parent() == nil {
 		name := fnKey(fn)
-		if ext := externals[name]; ext != nil {
+		if i.noExtOnce == fn {
+			i.noExtOnce = nil
+		} else if ext := externals[name]; ext != nil {
 			return ext(fr, args)
 		}
 		if ext := i.eng.extraExternals[name]; ext != nil {
@@ -524,7 +537,17 @@ func callSSA(i *interpreter, caller *frame, callpos token.Pos, fn *ssa.Function,
 			// import init called from another init: lazy, skip.
 			return nil
 		}
-		if fn.Blocks == nil || (fn.Pkg != nil && i.eng.opaque(fn.Pkg.Pkg.Path())) {
+		if strings.HasPrefix(name, "(time.Time).") || strings.HasPrefix(name, "(*time.Time).") || strings.HasPrefix(name, "(*time.Timer).") || strings.HasPrefix(name, "(*time.Ticker).") ||
+			name == "time.NewTimer" || name == "time.NewTicker" || name == "time.After" || name == "time.AfterFunc" || name == "time.Tick" || name == "time.Date" || name == "time.Parse" {
+			if i.inInit > 0 {
+				return zeroResult(fn.Signature)
+			}
+			panic(pathAbort{kind: abortUnsupported, msg: "no model for time function: " + name + callerChain(caller)})
+		}
+		if pp := pkgPathOf(fn); pp != "" && i.eng.noop(pp) {
+			return zeroResult(fn.Signature)
+		}
+		if fn.Blocks == nil || (i.inInit == 0 && fn.Pkg != nil && i.eng.opaque(fn.Pkg.Pkg.Path())) {
 			if i.inInit > 0 {
 				return zeroResult(fn.Signature)
 			}
@@ -559,11 +582,44 @@ func callSSA(i *interpreter, caller *frame, callpos token.Pos, fn *ssa.Function,
 	for k, fv := range fn.FreeVars {
 		fr.env[fv] = env[k]
 	}
+	if i.inInit > 0 && caller != nil {
+		// permissive mode: an unsupported operation inside a package initialiser
+		// makes the enclosing call return zero values.
+		depth := i.callDepth
+		ok := false
+		func() {
+			defer func() {
+				if ok {
+					return
+				}
+				p := recover()
+				if pa, isPA := p.(pathAbort); isPA && (pa.kind == abortUnsupported || pa.kind == abortInternal) {
+					i.callDepth = depth
+					fr.result = zeroResult(fn.Signature)
+					fr.block = nil
+					return
+				}
+				panic(p)
+			}()
+			for fr.block != nil {
+				runFrame(fr)
+			}
+			ok = true
+		}()
+		i.callDepth--
+		return fr.result
+	}
 	for fr.block != nil {
 		runFrame(fr)
 	}
 	i.callDepth--
 	return fr.result
+}
+
+// callSSANoExt interprets fn from its SSA even if a native model exists.
+func callSSANoExt(i *interpreter, caller *frame, fn *ssa.Function, args []value) value {
+	i.noExtOnce = fn
+	return callSSA(i, caller.caller, token.NoPos, fn, args, nil)
 }
 
 func callerChain(fr *frame) string {
@@ -686,5 +742,5 @@ func doRecover(caller *frame) value {
 
 // runtimeError builds a value of type runtime.Error (here: an errors.errorString-like iface).
 func (i *interpreter) runtimeError(msg string) value {
-	return iface{t: i.eng.runtimeErrT, v: structure{"runtime error: " + msg}}
+	return iface{t: i.eng.runtimeErrT, v: msg}
 }
